@@ -1312,3 +1312,174 @@ def gen_x(arim, rec, rng, wkind):
     return pipeline_case(arim, rec, kind=3, family=fam, tx=tx, rx=rx, data=data, ns=ns, dt=dt, t0=t0, scheme=scheme, fill=fill,
                          shape=(P,), grid=G, probe=E * s, vel=vel, wmode=wmode, w=w, spelling=spelling,
                          vel_spelling="np" if rng.random() < 0.3 else None)
+
+
+# ---------------------------------------------------------------------------------------------------------------
+# the fixed examples of .work/prover_C12_TIE.md
+# ---------------------------------------------------------------------------------------------------------------
+EX_GRID3 = np.array([[[(0, 0, 4), (0, 0, 0), (8, 0, 0)]], [[(1, 0, 0), (-4, 0, 0), (0, 4, 0)]]], dtype=float)   # shape (2, 1, 3)
+EX_GRID = np.array([(0, 0, 4), (3, 0, 4)], dtype=float)
+EX_PROBE = np.array([(0, 0, 0), (3, 0, 0)], dtype=float)
+FMC2 = [(0, 0), (0, 1), (1, 0), (1, 1)]
+HMC2 = [(0, 0), (0, 1), (1, 1)]
+
+
+def _ex_frame(pairs, ns=12):
+    tx = np.array([p[0] for p in pairs], dtype=np.int64)
+    rx = np.array([p[1] for p in pairs], dtype=np.int64)
+    data = np.array([[100 * min(i, j) + 10 * max(i, j) + k for k in range(ns)] for i, j in pairs], dtype=float)
+    return tx, rx, data
+
+
+def fixed_units(arim, rng, rec):
+    nn = [None] * 6
+    out = [u_grid(arim, rng, EX_GRID3, "C", [[1, 0, 2], [1, 1, 0], [0, 0]], "fixed"),
+           u_grid(arim, rng, EX_GRID3, "F", [[1, 0, 2], [1, 1, 0], [0, 0]], "fixed"),
+           u_reshape(arim, rng, False, [10, 11, 12, 13, 14, 15], (3, 2), "fixed"),
+           u_reshape(arim, rng, False, [10, 11, 12, 13, 14], (3, 2), "fixed"),
+           u_reshape(arim, rng, False, [7], (), "fixed"),
+           u_reshape(arim, rng, False, [], (2, 0), "fixed"),
+           u_reshape(arim, rng, True, EX_GRID3.reshape(6, 3), (2, 1, 3), "fixed"),
+           u_weights(arim, rng, [0, 0, 2, 1], [0, 1, 1, 0], "fixed"),
+           u_weights(arim, rng, [0, 0, 0], [1, 1, 0], "fixed:repeated pair"),
+           u_weights(arim, rng, [5, -3, 7, 7], [7, 5, 5, -3], "fixed:negative values"),
+           u_weights(arim, rng, [0, 0, 0], [1, 1], "fixed:length mismatch"),
+           u_arr(arim, rng, np.array([[1, 2, 3], [4, 5, 6.0]]), "fixed"),
+           u_arr(arim, rng, np.asfortranarray(np.array([[1, 2, 3], [4, 5, 6.0]])), "fixed"),
+           u_shape(arim, rng, (6,), (2, 1, 3), "fixed"),
+           u_shape(arim, rng, (2, 1, 3), (2, 1, 3), "fixed")]
+    for w, n in (([2.0], 4), ([1.0, 2.0, 3.0, 4.0], 4), ([1.0, 1.0, 1.0], 4), ([3.0], 1), ([1.0, 1.0, 1.0], 1), ([], 1), ([], 3)):
+        out.append(u_bcast(arim, rng, w, n, "fixed"))
+    for pairs in (HMC2, FMC2, [(1, 1), (0, 1), (0, 0)], [(0, 1)]):
+        out.append(u_complete(arim, rng, rec, pairs, "fixed"))
+    for b in (nn, [0, 0] + nn[2:], [3] + nn[1:], [10] + nn[1:]):
+        out.append(u_max_box(arim, rng, EX_GRID, np.array([1.0, -5.0]), b, "fixed"))
+    out.append(u_max_box(arim, rng, EX_GRID, np.array([3 + 4j, -5.0]), [None, 0] + nn[2:], "fixed"))
+    out.append(u_max_box(arim, rng, EX_GRID3, np.array([[[1.0, -5, 2]], [[-9, 3, 4]]]), [None, 0] + nn[2:], "fixed"))
+    out.append(u_max_area(arim, rng, np.array([1.0, -5.0]), None, "fixed"))
+    out.append(u_max_area(arim, rng, np.array([float("nan"), float("nan")]), None, "fixed:all nan"))
+    out.append(u_max_area(arim, rng, np.array([1.0, -5.0]), [False, False], "fixed:empty"))
+    out.append(u_rect(arim, rng, EX_GRID3, [None, 0] + nn[2:], "fixed"))
+    return out
+
+
+def fixed_pipelines(arim, rec, rng):
+    out = []
+
+    def contact(pairs, grid, shape, scheme=0, t0=0.0, fill=0.0, layout="C", kind=0, wmode=0, w=(), name=""):
+        tx, rx, data = _ex_frame(pairs)
+        G, lay = with_layout(rng, np.asarray(grid, dtype=float), layout)
+        out.append(pipeline_case(arim, rec, kind=kind, family="fixed:" + name, tx=tx, rx=rx, data=data, ns=12, dt=1.0, t0=t0, scheme=scheme,
+                                 fill=fill, shape=shape, grid=G, probe=EX_PROBE, vel=1.0, wmode=wmode, w=w, layout=lay))
+
+    contact(FMC2, EX_GRID3, (2, 1, 3), name="contact_nd FMC nearest")
+    contact(FMC2, EX_GRID3, (2, 1, 3), layout="F", name="contact_nd FMC nearest, F-ordered coords")
+    contact(HMC2, EX_GRID3, (2, 1, 3), scheme=1, t0=0.5, fill=-7.0, name="contact_nd HMC linear fill -7")
+    contact(FMC2, EX_GRID3.reshape(6, 3), (6,), name="1-d call")
+    contact(FMC2, [(-4, 0, 0), (0, 0, 4), (-4, 0, 0)], (3,), name="sub-list")
+    contact([(1, 1), (0, 1), (0, 0)], EX_GRID, (2,), name="permuted HMC")
+    for name, wmode, w, pairs in (("XArray [2]", 3, [2.0], FMC2), ("XScalar 2", 2, [2.0], FMC2), ("XArray [1,2,3,4]", 3, [1.0, 2.0, 3.0, 4.0], FMC2),
+                                  ("XArray [1,1,1]", 3, [1.0, 1.0, 1.0], FMC2), ("XNd", 4, [1.0, 1.0, 1.0, 1.0], FMC2),
+                                  ("one timetrace, XArray [3]", 3, [3.0], [(0, 1)]),
+                                  ("one timetrace, XArray [1,1,1] (shape drift, not run)", 3, [1.0, 1.0, 1.0], [(0, 1)]),
+                                  ("one timetrace, XArray [] (shape drift, not run)", 3, [], [(0, 1)])):
+        contact(pairs, EX_GRID, (2,), kind=3, wmode=wmode, w=w, name=name)
+    tC, rC = np.array([[4, 5], [5, 4.0]]), np.array([[1, 2], [3, 1.0]])
+    tx, rx, data = _ex_frame(FMC2)
+    for name, a, b in (("C,C", tC, rC), ("F,C", np.asfortranarray(tC), rC), ("F,F", np.asfortranarray(tC), np.asfortranarray(rC))):
+        out.append(pipeline_case(arim, rec, kind=2, family="fixed:tfm_for_view_mem " + name, tx=tx, rx=rx, data=data, ns=12, dt=1.0, t0=0.5,
+                                 scheme=1, fill=0.0, shape=(2,), ttx=a, trx=b))
+    out.append(pipeline_case(arim, rec, kind=1, family="fixed:tfm_for_view_nd shape (2,1)", tx=tx, rx=rx, data=data, ns=12, dt=1.0, t0=0.5,
+                             scheme=1, fill=0.0, shape=(2, 1), ttx=tC, trx=rC))
+    tx, rx, data = _ex_frame(HMC2)
+    out.append(pipeline_case(arim, rec, kind=1, family="fixed:tfm_for_view_nd HMC (warning)", tx=tx, rx=rx, data=data, ns=12, dt=1.0, t0=0.5,
+                             scheme=1, fill=0.0, shape=(1, 2), ttx=tC, trx=rC, view="real"))
+    return out
+
+
+# ---------------------------------------------------------------------------------------------------------------
+def _bools(raw):
+    m = re.search(r"=\s*\[([^\]]*)\]", raw)
+    return [x.strip() == "true" for x in m.group(1).split(";")] if m and m.group(1).strip() else []
+
+
+def _report(chk, cases, bad, group, imports_extra=""):
+    """one report per (observable, input family), at most 10 per group; the model's answers come from coqc"""
+    seen, emitted = set(), 0
+    for b in bad:
+        c = cases[b]
+        fam = ":".join(c.family.split(":")[:2])
+        if (c.tag, fam) in seen or emitted >= 10:
+            continue
+        seen.add((c.tag, fam))
+        emitted += 1
+        try:
+            if c.tag == "P":
+                raw = chk.coq_values(f"tie_C12_diag_{group}_{b}", COQ_IMPORTS + f"Definition c0 : pcase := {c.lit}.\n", c.exprs)
+                names = P_OBS
+            else:
+                raw = chk.coq_values(f"tie_C12_diag_{group}_{b}", COQ_IMPORTS, [f"u_checks ({c.lit})"] + c.exprs)
+                names = U_OBS[c.tag]
+            flags = _bools(raw)
+            failing = [names[k] if k < len(names) else f"check {k}" for k, ok in enumerate(flags) if not ok] or ["case"]
+            model = " ".join(raw.split())[:6000]
+        except RuntimeError as e:       # the diagnostic file itself does not compile: still a disagreement
+            failing, model = ["case"], f"(diagnostics unavailable: {str(e)[-300:]})"
+        who = c.info.get("function", c.tag) if c.tag == "P" else c.tag
+        chk.violation(f"tie:{who}:{failing[0].split(' ')[0]}",
+                      f"tie C12: the glue model (Model/TfmGlue.v) and arim disagree on {', '.join(failing)} "
+                      f"(input family {c.family}; {len(bad)} of {len(cases)} {group} cases disagree in this run)",
+                      dict(c.info, input_family=c.family, disagreeing_observables=failing, correspondence=c.corr,
+                           model_answers=model, case_number=b, disagreeing_case_numbers=bad[:200], coq_case=c.lit[:20000]),
+                      failing_input_found=False)
+
+
+def run(chk, arim, rng, quick):
+    import numba
+    import arim.im.tfm   # noqa: F401
+    import arim.ray      # noqa: F401
+    import arim.ut       # noqa: F401
+    k = 1 if quick else 10
+    old_threads = numba.get_num_threads()
+    numba.set_num_threads(1)        # the kernels are `prange` loops: one thread avoids ~70 ms of thread start-up per call
+    units, pipes = [], []
+    try:
+        with warning_recorder() as rec:
+            units += fixed_units(arim, rng, rec)
+            units += [u_grid(arim, rng) for _ in range(60 * k)]
+            units += [u_reshape(arim, rng, False) for _ in range(40 * k)] + [u_reshape(arim, rng, True) for _ in range(30 * k)]
+            units += [u_take(arim, rng) for _ in range(30 * k)]
+            units += [u_weights(arim, rng) for _ in range(60 * k)]
+            units += [u_arr(arim, rng) for _ in range(40 * k)]
+            units += [u_shape(arim, rng) for _ in range(30 * k)]
+            units += [u_bcast(arim, rng) for _ in range(50 * k)]
+            units += [u_complete(arim, rng, rec) for _ in range(30 * k)]
+            units += [u_rect(arim, rng) for _ in range(50 * k)]
+            units += [u_max_area(arim, rng) for _ in range(50 * k)]
+            units += [u_max_box(arim, rng) for _ in range(40 * k)]
+
+            pipes += fixed_pipelines(arim, rec, rng)
+            pipes += [gen_contact_nd(arim, rec, rng) for _ in range(90 * k)]
+            for err, cnt in (("amps", 8), ("weights", 8), ("lanczos+amps", 4)):
+                pipes += [gen_contact_nd(arim, rec, rng, err) for _ in range(cnt * k)]
+            for kind in (1, 2):
+                pipes += [gen_view(arim, rec, rng, kind) for _ in range(45 * k)]
+                for err, cnt in ((("grid", 6) if kind == 1 else ("columns", 3)), ("columns", 5), ("amps", 5), ("lanczos+amps", 2)):
+                    pipes += [gen_view(arim, rec, rng, kind, err) for _ in range(cnt * k)]
+            for wkind, cnt in (("default", 6), ("none", 6), ("scalar", 10), ("full", 10), ("one", 10), ("wrong", 12), ("drift", 10), ("nd", 6)):
+                pipes += [gen_x(arim, rec, rng, wkind) for _ in range(cnt * k)]
+    finally:
+        numba.set_num_threads(old_threads)
+    for c in units + pipes:
+        chk.count(tie_C12=c.family)
+    never_run = sum(1 for c in pipes if c.info["arim"]["outcome"].startswith("shape drift"))
+
+    ubad = chk.coq_failing("tie_C12_unit", COQ_IMPORTS, "ucase", [c.lit for c in units], "check_u", shard=120, jobs=8)
+    pbad = chk.coq_failing("tie_C12_pipe", COQ_IMPORTS, "pcase", [c.lit for c in pipes], "check_p", shard=40, jobs=8)
+    _report(chk, units, ubad, "unit")
+    _report(chk, pipes, pbad, "pipeline")
+    n_obs = sum(len(U_OBS[c.tag]) for c in units) + 3 * len(pipes)
+    chk.cov["tie_C12"] = {"unit_cases": len(units), "pipeline_cases": len(pipes), "comparisons": n_obs,
+                          "disagreements": len(ubad) + len(pbad),
+                          "shape_drift_inputs_classified_without_running_the_library": never_run}
+    return n_obs
